@@ -536,10 +536,11 @@ func checkC03(sc *Scenario, h *History) []Violation {
 		if !first {
 			continue
 		}
-		if needReset && it.unit != endedUnit {
-			// the transaction end is signalled when it happens, not when the backend is
-			// next needed: the Reset precedes the answer to whatever command comes next
-			v("C03.no-reset", "the transaction ended by %q had not been signalled by Reset when the next command %q was answered %s", clip(w.Units[endedUnit].Line, 40), clip(u.Line, 40), r)
+		if needReset && it.unit != endedUnit && (u.Verb == "MAIL" || u.Verb == "RCPT" || u.Verb == "DATA" || u.Verb == "BDAT") {
+			// the end of a transaction has been signalled by the time the next envelope
+			// command is answered - whether that command is accepted (then the callback
+			// rule above applies as well) or refused
+			v("C03.no-reset", "the transaction ended by %q had not been signalled by Reset when the next envelope command %q was answered %s", clip(w.Units[endedUnit].Line, 40), clip(u.Line, 40), r)
 			needReset = false
 		}
 		end := func() {
@@ -695,7 +696,7 @@ func init() {
 			return out
 		},
 		Real: histReal, Stub: histStub,
-		Assumptions: []string{"a second MAIL inside a transaction and the placement of VRFY/NOOP are not judged", "'signalled by Reset' is judged as: at least one Reset between a transaction end and the next envelope callback"},
+		Assumptions: []string{"a second MAIL inside a transaction and the placement of VRFY/NOOP are not judged", "'signalled by Reset' is judged as: at least one Reset between a transaction end and the next envelope callback, and before the next MAIL/RCPT/DATA/BDAT is answered (other commands may be answered first)"},
 		Required:    []string{"stale_delivery_overlaps_next_transfer", "newsession_failed", "several_messages_in_one_history", "auth_exchange_with_334_inside_history", "backend_callback_slower_than_ReadTimeout", "backend_returns_early_with_message_unread"},
 		QuickRuns:   250000, ThoroughRuns: 6000000,
 	})
